@@ -288,8 +288,11 @@ func (x *decExec) relations(what string, st bufState, rejecting bool) {
 	if rejecting {
 		props = append(props, "C05")
 	}
+	// The read position belongs to C18 as well: bytes at or after it must
+	// never be dropped and bytes before it never be offered again.
+	rprops := append(append([]string{}, props...), "C18")
 	if !(0 <= b.R && b.R <= len(b.Data)) {
-		x.reportAll(props, "%s: R=%d outside [0,%d]", what, b.R, len(b.Data))
+		x.reportAll(rprops, "%s: R=%d outside [0,%d]", what, b.R, len(b.Data))
 		x.dead = true
 		return
 	}
@@ -300,7 +303,7 @@ func (x *decExec) relations(what string, st bufState, rejecting bool) {
 		return
 	}
 	if got := len(x.all) - len(b.Data) + b.R; got != x.cursor {
-		x.reportAll(props, "%s: read position is at stream offset %d, model says %d (unread bytes dropped or bytes offered twice)",
+		x.reportAll(rprops, "%s: read position is at stream offset %d, model says %d (unread bytes dropped or bytes offered twice)",
 			what, got, x.cursor)
 		x.dead = true
 		return
@@ -375,6 +378,8 @@ func (x *decExec) apply(op DOp) {
 		x.doFlush()
 	case "reset":
 		x.doReset()
+	case "reinit":
+		x.doReinit()
 	case "byteatend":
 		x.doByteAtEnd(op)
 	default:
@@ -434,7 +439,7 @@ func (x *decExec) doWriteByte(op DOp) {
 		x.retriesPending = append(x.retriesPending, op)
 	case errSpin:
 	default:
-		x.report("C07", "Decoder.WriteByte returned %v", err)
+		x.reportAll([]string{"C07", "C04"}, "Decoder.WriteByte returned %v", err)
 	}
 }
 
@@ -488,7 +493,7 @@ func (x *decExec) doWrite(op DOp) {
 	case errSpin:
 	default:
 		// A plain byte slice is always valid input.
-		x.report("C07", "Decoder.Write(%d bytes) returned %v", len(p), err)
+		x.reportAll([]string{"C07", "C04"}, "Decoder.Write(%d bytes) returned %v", len(p), err)
 	}
 }
 
@@ -540,7 +545,7 @@ func (x *decExec) doWriteMatch(op DOp) {
 			x.report("C05", "WriteMatch(m=%d, o=%d): well-formed match (window %d, %d bytes written) refused with %v",
 				op.M, op.O, x.cc.WindowSize, len(x.all), err)
 		} else if x.permanentRefusal(err, int64(op.M)) {
-			x.report("C07", "WriteMatch(m=%d, o=%d) refused for ever (%v) although it fits into BufferSize-WindowSize = %d-%d (%d bytes buffered, %d read)",
+			x.reportAll([]string{"C07", "C04"}, "WriteMatch(m=%d, o=%d) refused for ever (%v) although it fits into BufferSize-WindowSize = %d-%d (%d bytes buffered, %d read)",
 				op.M, op.O, err, x.cc.BufferSize, x.cc.WindowSize, st.lenData, st.r)
 		}
 	}
@@ -597,7 +602,9 @@ func (x *decExec) doWriteBlock(op DOp) {
 		}
 	}
 	if firstBad >= 0 && firstBad < k {
-		x.report("C05", "%s consumed %d sequences although sequence %d is malformed (%s)", what, k, firstBad, badWhy)
+		// either the malformed sequence was really consumed (C05) or k
+		// over-reports what was consumed (C17)
+		x.reportAll([]string{"C05", "C17"}, "%s reports %d sequences as consumed although sequence %d is malformed (%s)", what, k, firstBad, badWhy)
 		x.dead = true
 		return
 	}
@@ -686,7 +693,7 @@ func (x *decExec) classifyStop(what string, op DOp, st bufState, k, l int, err e
 			return
 		}
 		if x.permanentRefusal(err, g) {
-			x.report("C07", "%s refused item %d of %d bytes for ever (%v) although it fits into BufferSize-WindowSize = %d-%d",
+			x.reportAll([]string{"C07", "C04"}, "%s refused item %d of %d bytes for ever (%v) although it fits into BufferSize-WindowSize = %d-%d",
 				what, k, g, err, x.cc.BufferSize, x.cc.WindowSize)
 		}
 		return
@@ -708,10 +715,10 @@ func (x *decExec) classifyStop(what string, op DOp, st bufState, k, l int, err e
 		x.excludedD14++
 		x.oversizeRefused++
 	default:
-		x.report("C07", "%s refused a well-formed block at item %d (%d bytes; BufferSize %d, WindowSize %d) with %v",
+		x.reportAll([]string{"C07", "C04"}, "%s refused a well-formed block at item %d (%d bytes; BufferSize %d, WindowSize %d) with %v",
 			what, k, g, x.cc.BufferSize, x.cc.WindowSize, err)
 		if !isSpaceErr(err) {
-			x.reportAll([]string{"C04", "C05"}, "%s: well-formed item %d refused with %v", what, k, err)
+			x.report("C05", "%s: well-formed item %d refused with %v", what, k, err)
 		}
 	}
 }
@@ -824,6 +831,32 @@ func (x *decExec) doReset() {
 	x.wr = nw
 	x.all = x.all[:0]
 	x.retriesPending = nil
+}
+
+// doReinit calls Init again on a used DecoderBuffer: like Reset, with the
+// configuration given anew.
+func (x *decExec) doReinit() {
+	if x.buf == nil {
+		return
+	}
+	st := x.before()
+	var err error
+	if x.guard("Init", func() {
+		err = x.buf.Init(lz.DecoderConfig{WindowSize: x.c.Cfg.WindowSize, BufferSize: x.c.Cfg.BufferSize})
+	}) {
+		return
+	}
+	if err != nil {
+		x.report("C04", "Init with the configuration accepted before returned %v", err)
+		x.dead = true
+		return
+	}
+	x.all = x.all[:0]
+	x.cursor = 0
+	x.relations("Reset", st, false)
+	if len(x.buf.Data) != 0 || x.buf.R != 0 {
+		x.report("C04", "after Init: len(Data)=%d, R=%d", len(x.buf.Data), x.buf.R)
+	}
 }
 
 func (x *decExec) doByteAtEnd(op DOp) {
